@@ -81,3 +81,17 @@ def minimise(node, fails, limit=200):
 
 def exc_class(e):
     return type(e).__name__
+
+
+class Runaway(Exception):
+    """An iterable handed out by the library yields more rows than any tree over the harness' leaves can have."""
+
+
+def take(iterable, limit=200):
+    """list(iterable), but a result that does not end (a self-referential iterable, say) is reported instead of hanging the check."""
+    out = []
+    for r in iterable:
+        out.append(r)
+        if len(out) > limit:
+            raise Runaway(f"more than {limit} rows")
+    return out
